@@ -138,12 +138,17 @@ def writers(R):
     R.ob('C08.writers', 'initial state (False, False)', vals == {('closing', False), ('closed', False)},
          'State.__init__ stores %s' % sorted(vals), func=ST + '.__init__', node=None, construct='initial flags')
     # properties read the flags
-    for prop, want in (('is_closing', 'self.state.closing'), ('is_closed', 'self.state.closed'),
-                       ('is_active', 'not self.state.closing and (not self.state.closed)')):
+    from .common import bool_table
+    atoms = ['self.state.closing', 'self.state.closed']
+    wants = {'is_closing': (False, False, True, True), 'is_closed': (False, True, False, True),
+             'is_active': (True, False, False, False)}
+    for prop, want in wants.items():
         f = R.func(WS + '.' + prop)
         rets = [x for x in own_nodes(f.node) if isinstance(x, ast.Return)]
-        R.ob('C08.writers', 'property %s' % prop, len(rets) == 1 and U(rets[0].value) == want,
-             '%s returns %s' % (prop, [U(r.value) for r in rets]), func=f, node=(rets[0] if rets else None))
+        tt = bool_table(rets[0].value, atoms) if len(rets) == 1 and rets[0].value is not None else None
+        R.ob('C08.writers', 'property %s' % prop, tt == want,
+             '%s returns %s (truth table over closing/closed: %s, expected %s)' % (prop, [U(r.value) for r in rets], tt, want),
+             func=f, node=(rets[0] if rets else None))
 
 
 def onlyclose(R, RID='C08.onlyclose'):
@@ -239,7 +244,8 @@ def server(R):
     R.ob('C08.server', 'echo carries the message\'s own code and reason', ok, 'echo is close(%s)' % ', '.join(
         U(a) for a in ec.args), func=f, node=ec)
     ev = y.ast.value
-    ok = [otext(R, g, y, a) for a in ev.args] == [mp + '.code', mp + '.reason']
+    from .common import call_args_by_name
+    ok = [otext(R, g, y, a) for a in call_args_by_name(ev, R.func('events.Closing.__init__'))] == [mp + '.code', mp + '.reason']
     R.ob('C08.server', 'Closing reports the message\'s code and reason', ok, 'Closing(%s)' % ', '.join(U(a) for a in ev.args),
          func=f, node=ev)
     before = [m for m in g.reachable([g.entry], avoid={y}, skip_edge=nx) if y in g.reachable([m], skip_edge=nx)]
